@@ -65,6 +65,7 @@ int vs_explore_iter(const struct vs_program *prog, const struct vs_options *opt,
 int vs_self(void);                                  /* 0..n-1, -1 outside */
 void vs_point(int kind, const volatile void *addr); /* explicit scheduling point */
 void vs_wait(bool (*pred)(void *), void *arg);      /* block until pred holds */
+void vs_yield(void);                                /* spinning: let the others progress first (fairness) */
 void vs_atomic_begin(void);                         /* suppress points (nests) */
 void vs_atomic_end(void);
 /* points whose address lies in an ignored range are not scheduling points */
